@@ -29,6 +29,7 @@ import (
 	"github.com/tsawler/tabula/contentstream"
 	"github.com/tsawler/tabula/core"
 	"github.com/tsawler/tabula/font"
+	"github.com/tsawler/tabula/format"
 	"github.com/tsawler/tabula/graphicsstate"
 	"github.com/tsawler/tabula/text"
 	"pgregory.net/rapid"
@@ -86,6 +87,8 @@ func fileEntry(payload []byte) (string, error) {
 	o().PreserveLayout().Text()
 	o().ExcludeHeadersAndFooters().Text()
 	o().Pages(1).Text()
+	format.DetectFromMagic(data)
+	format.DetectFromReader(bytes.NewReader(data), int64(len(data)))
 	return "", nil
 }
 
@@ -537,6 +540,30 @@ func pdfFaultsConsistent(bp basePDF, emit emitFn) {
 	}
 }
 
+// pdfFaultsObjStmHeader: every number of every object-stream header := hostile values (the header lives inside
+// the possibly compressed stream data, out of reach of the byte-level marks).
+func pdfFaultsObjStmHeader(bp basePDF, emit emitFn) {
+	ids := make([]string, 0, len(bp.res.StmMembers))
+	for id := range bp.res.StmMembers {
+		ids = append(ids, id)
+	}
+	sort.Strings(ids)
+	for _, id := range ids {
+		for k := 0; k < bp.res.StmMembers[id]; k++ {
+			for field, what := range []string{"object number", "offset"} {
+				for _, h := range append([]string{"1", "7", "40", "100000"}, hostileInts...) {
+					id, k, field, h := id, k, field, h
+					emit("file", ".pdf", fmt.Sprintf("objstm-header: %s pair %d %s := %s [%s]", id, k, what, h, bp.name), func() []byte {
+						l2 := bp.l
+						l2.ObjStmHead = []pdfw.HeadFault{{Stm: id, Index: k, Field: field, New: h}}
+						return pdfw.Write(bp.docs, l2).Bytes
+					})
+				}
+			}
+		}
+	}
+}
+
 func clipS(s string) string {
 	if len(s) > 20 {
 		return s[:20]
@@ -688,6 +715,7 @@ func TestPDFFaultCatalogue(t *testing.T) {
 		for _, bp := range bases {
 			pdfFaults(bp.name, bp.res, emit)
 			pdfFaultsConsistent(bp, emit)
+			pdfFaultsObjStmHeader(bp, emit)
 		}
 	})
 	if !t.Failed() {
